@@ -8,6 +8,24 @@ COMMON_TRUST = [
 ]
 
 PROPS = {
+    'C01': dict(
+        units=['wire', 'encode', 'decode'], level='proof',
+        not_covered=[
+            'gzip/deflate/zstd really are inverses and compress() uses the coder named by the encoding (flate2/zstd FFI): assumed as A-compress-01..04',
+            'prost encode/decode satisfy the codec contracts A-codec-01..04 (decode reads the whole payload, never Ok(None); encode appends exactly ser(item))',
+            'buffer_size only affects reserve() arguments; capacity is not part of the BytesMut view (A-bytes-reserve)',
+            'the composition "encoder trace then decoder trace" is stated per call (enc_step / M1,P1,N1 step clauses) plus the spec-level lemmas lemma_parse_wire and lemma_parse_append; the induction over whole poll traces is not yet mechanised',
+        ]),
+    'C03': dict(
+        units=['wire', 'encode'], level='proof',
+        not_covered=[
+            'request/response head construction (prepare_request, map_response, Status::into_http) is not yet under contract in this build',
+            'that compress() uses the coder named in grpc-encoding (FFI)', 'HTTP/2 serialisation of heads and trailers (hyper/h2)',
+        ]),
+    'C06': dict(
+        units=['encode', 'decode'], level='proof',
+        not_covered=['server/client plumbing of max_*_message_size from the configuration into Streaming / EncodeBody (straight-line glue, not yet under contract)'],
+        ),
     'C07': dict(
         units=['decode'], level='proof',
         not_covered=[
